@@ -37,6 +37,14 @@ CLAIMED = {
         note=TB + "the order of AST children vs source order is the parser's part (AST correspondence).",
         technique="Lean 4 theorems with a tracing converter (order and multiplicity of converter operations) + correspondence + tracer oracle",
         design="7/C04"),
+    "C05": dict(
+        text="Theorems (Props/C05.lean) about the Batch emitter model, for every program without any hypothesis: every statement leaves parenthesis depth and the heights of the if/loop/"
+             "end-label/function stacks unchanged, all stacks are empty at the end, every emitted script has balanced parentheses (helpers included), label numbers are handed out "
+             "once. Semantics under cmd.exe: the cmd model (lib/cmdsim.py, calibrated on the suite's expectations in every run) executes the real script of every generated program "
+             "and compares with the 32-bit reference result -- a search, not a proof.",
+        note=TB + "no cmd.exe exists in the sandbox; cmd.exe's rules are those of the cmd model (DESIGN.md appendix F).",
+        technique="Lean 4 graded-walk theorems on the Batch emitter model + byte-for-byte correspondence + execution under a calibrated cmd.exe model",
+        design="7/C05"),
     "C06": dict(
         text="The typing discipline is an executable checker on elaborated ASTs (Model/Typed.lean), run on every AST the real parser returns. Theorems (Props/C06.lean): every typed AST "
              "is translated by the bash emitter model without error or panic (the converters' second line of defence never fires on typed input, so acceptance is the parser's, "
@@ -130,9 +138,7 @@ CLAIMED = {
         design="7/C19"),
 }
 
-PENDING = {
-    "C05": "check built and run (cmd.exe model calibrated on the suite, Lean Batch emitter model in correspondence), but no Lean theorem is stated yet for the Batch target; not claimed at proof level until Props/C05.lean has theorems",
-}
+PENDING = {}
 
 NOT_APPLICABLE_REASON = "check not built yet in this round (model and tie pending); see DESIGN.md section 7"
 
